@@ -143,6 +143,19 @@ where
             }
         }
 
+        // A chain start has no previous row, so the limbs this row leaves out start from zero.
+        // Sponge-mode chain starts get that from the permutation builder; a single-chunk Merkle
+        // seed is a Merkle-mode row, where the table treats unfed limbs as private sibling slots
+        // (free), so they have to be fed explicitly.
+        if is_first && reset && single_chunk_seed {
+            let zero = circuit.define_const(EF::ZERO);
+            for slot in inputs.iter_mut() {
+                if slot.is_none() {
+                    *slot = Some(zero);
+                }
+            }
+        }
+
         // Add permutation
         let (_, maybe_outputs) = circuit.add_perm(
             *permutation_config,
